@@ -100,6 +100,10 @@ func (c *Ctx) evalReqArgs(e *interp.Engine, atoms term.Set, env term.Env, r *com
 		if e.T.Any(p, atoms, env) {
 			return "forbidden fact/effect present: " + p.Src
 		}
+		// effects performed on only some of the paths merged into this class (the must-set dropped them)
+		if len(c.curMay) > 0 && e.T.Any(p, c.curMay, env) {
+			return "forbidden effect present on some of the paths merged into this class: " + p.Src
+		}
 	}
 	return ""
 }
@@ -148,7 +152,10 @@ func (c *Ctx) Check(which, rulePrefix string, evs []*interp.Event, min int, m Ma
 				if bind != nil {
 					env = bind(ev)
 				}
-				if d := c.evalReqArgs(e, ev.Atoms, env, r, ev.Args); d != "" {
+				c.curMay = ev.May
+				d := c.evalReqArgs(e, ev.Atoms, env, r, ev.Args)
+				c.curMay = nil
+				if d != "" {
 					diag = d
 					if os.Getenv("VERIF_DEBUG") != "" {
 						fmt.Printf("DEBUG %s/%s fails at %s: %s\n", rulePrefix, r.Name, where, d)
@@ -233,7 +240,10 @@ func (c *Ctx) CheckRets(which, rulePrefix string, rr *interp.RunResult, sel func
 			if NilErr(e)(ret) {
 				atoms = successAtoms(e, ret)
 			}
-			if d := c.evalReq(e, atoms, nil, r); d != "" && diag == "" {
+			c.curMay = ret.May
+			d := c.evalReq(e, atoms, nil, r)
+			c.curMay = nil
+			if d != "" && diag == "" {
 				diag = d
 				if os.Getenv("VERIF_DEBUG") != "" {
 					fmt.Printf("DEBUG %s/%s fails on a return class: %s\n", rulePrefix, r.Name, d)
